@@ -10,10 +10,20 @@ package nextstrain
 //@   assigns nothing
 //@   ensures [document_or_error] err == nil ==> ns != nil
 
+// FirstTree / phylogenyToTree (properties C02, C13): the document's root node is converted into a tree object made by
+// this call, starting with no parent, both counters at zero and the root's own divergence (so the root has no branch)
 //@ func (*io/nextstrain.Nextstrain).FirstTree
 //@   flag treeop
+//@   flag noframe
 //@   requires n != nil
 //@   ensures [always_a_tree_object] t != nil
+//@   call io/nextstrain.phylogenyToTree [the_document_s_root_node_is_converted_into_the_tree_object_just_made] a0 != nil && a1 != nil && fresh(a1) && a0.Name == n.Tree.Name && a0.Children == n.Tree.Children
+//@   ensures [the_tree_object_is_new] fresh(t)
+//@ func io/nextstrain.phylogenyToTree
+//@   flag treeop
+//@   flag noframe
+//@   requires r != nil && t != nil
+//@   call io/nextstrain.cladeToTree [from_the_root_json_node_with_no_parent_both_counters_at_zero_and_the_root_s_own_divergence] a0 == r && a1 == t && a2 == nil && nedges == 0 && nnodes == 0 && a5 == r.Attributes.Divergence
 
 // cladeToTree (properties C02, C13): one new node per JSON node under the node of its parent; the branch length is
 // the divergence gained since the parent; never indexes or dereferences anything absent
